@@ -25,8 +25,8 @@ RULE = ("histories of feature-mutating API calls over the name alphabet {a,b,c} 
 ASSUMPTIONS = ["operator objects and expressions are only applied to existing input names (with a missing input tracklib "
                "creates the output column before raising; the property does not settle whether that is a write)",
                "the order in which getListAnalyticalFeatures lists names is not part of the property (compared as a set)"]
-EXHAUSTIVE = {"quick": "all histories of depth <= 3 over the 38 reduced operations (54 872 of depth 3)",
-              "thorough": "all histories of depth <= 4 over the 38 reduced operations (2 085 136 of depth 4)"}
+EXHAUSTIVE = {"quick": "all histories of depth <= 3 over the 40 reduced operations (64 000 of depth 3)",
+              "thorough": "all histories of depth <= 4 over the 40 reduced operations (2 560 000 of depth 4)"}
 CASE_LIMIT_S = 30.0
 
 NAMES = ["a", "b", "c"]
@@ -44,9 +44,11 @@ REDUCED = (
     [("expr", "c=a+b"), ("expr", "a=b*2"), ("expr", "b=-a"), ("expr", "a=a+c")] +
     [("eval", "a+b"), ("eval", "c*2"), ("eval", "ABS{a}")] +
     [("add_af", "b")] + [("read", "a"), ("read", "c")] +
-    [("expr", "a+=b")] + [("update_list", "c")] + [("create_scalar", "c")]
+    [("expr", "a+=b")] + [("update_list", "c")] + [("create_scalar", "c")] +
+    # literal-only sub-expressions are reduced without creating a temporary (gaps in the temporaries' numbering)
+    [("expr", "c=a+2*3"), ("eval", "b*(4-1)")]
 )
-assert len(REDUCED) == 38, len(REDUCED)
+assert len(REDUCED) == 40, len(REDUCED)
 
 UNARY = {"INVERTER": lambda v: [-x for x in v],
          "SQUARE": lambda v: [x * x for x in v],
@@ -155,12 +157,13 @@ def random_op(rng, model):
     if k == "expr":
         t = rng.choice(["{o}={a}+{b}", "{o}={a}*{k}", "{o}=-{a}", "{o}+={a}", "{o}=ABS{{{a}}}", "{o}=D{{{a}}}",
                         "{o}=({a}+{b})*{k}", "{o}={a}-{b}*{k}", "{o}={a}", "{o}={k}", "{o}=I{{{a}}}+{b}",
-                        "{o}=({a}-{b})*({b}+{k})"])
+                        "{o}=({a}-{b})*({b}+{k})", "{o}={a}+2*3", "{o}={a}*(1/2)+{b}", "{o}={b}-(4-1)*{k}",
+                        "{o}=(1+1)*(2+1)", "{o}=ABS{{{a}}}*(2*2)+D{{{b}}}"])
         if "+=" in t and o not in model:
             t = "{o}={a}+{b}"
         return ("expr", t.format(o=o, a=i1, b=i2, k=kk))
     t = rng.choice(["{a}+{b}", "{a}*{k}", "ABS{{{a}}}", "({a}+{b})*{k}-{a}", "-{a}", "AVG{{{a}}}+{b}", "D{{{a}}}",
-                    "{a}-({b}-{a})*{k}"])
+                    "{a}-({b}-{a})*{k}", "{a}+2*3", "1/2*{a}", "{a}*(4-1)-{b}*(2*{k})", "(1+2)*(3-1)"])
     return ("eval", t.format(a=i1, b=i2, k=kk))
 
 
